@@ -1,3 +1,3 @@
-(* _client.py :: async_ncrypt_protect_secret :: ('callarg', '_async_get_key', 0, 5) :  l2 *)
+(* _client.py :: async_ncrypt_protect_secret :: shape kernel :  _async_get_key(... 5: l2  [= -1] ...) *)
 Definition k_onl_aprot_arg5  : Z :=
-  (- 1).
+  (-1).
